@@ -18,7 +18,7 @@ import sys
 import tempfile
 from pathlib import Path
 
-from ..core.runner import HarnessError, REPO, VERIF
+from ..core.runner import HarnessError, REPO, VERIF, guarded
 from ..ref import formats as F
 from . import c05
 
@@ -388,7 +388,7 @@ def child_main(batch_file, out_file):
     items = [([tuple(p) for p in progs], [tuple(s) for s in sched], workroot) for progs, sched in data["schedules"]]
     res = []
     with mp.get_context("fork").Pool(data["workers"], maxtasksperchild=1) as pool:
-        for r in pool.imap_unordered(run_schedule, items, chunksize=1):
+        for r in pool.imap_unordered(guarded(run_schedule), items, chunksize=1):
             res.append(r)
     Path(out_file).write_text(json.dumps(res))
 
